@@ -94,6 +94,27 @@ Theorem C32_rename_in_formulas :
 Proof. exact name_rename_in_formula. Qed.
 Print Assumptions C32_rename_in_formulas.
 
+(* ---- one update that changes name AND scope: which formulas are rewritten ----------------------------
+   update_defined_name(name, scope, new_name, new_scope, formula) calls the pass with the OLD scope:
+   a DefinedNameKind leaf of that name is rewritten iff its scope is the old scope of the name — the
+   formulas that resolved to the old (name, scope) —, a leaf of the same name in another scope (a
+   shadowing local / the shadowed global) is left alone, and the new scope does not enter at all.
+   (After such an update a formula outside the new scope shows #NAME?: the re-parse, not the pass.) *)
+Theorem C32_rename_matches_old_scope :
+  (forall lower name scope new_name n s f,
+     (s = scope -> lower name = lower n -> rename lower name scope new_name (EDefName n s f) = EDefName new_name s f) /\
+     (s <> scope -> rename lower name scope new_name (EDefName n s f) = EDefName n s f)) /\
+  (forall nm env lower name scope new_name ns1 ns2 stored,
+     update_name_in_formula nm env lower name scope new_name ns1 stored
+     = update_name_in_formula nm env lower name scope new_name ns2 stored) /\
+  (forall nm env lower name scope new_name new_scope e,
+     image (m_rc_of true) nm env e = true -> no_bad false e = true -> lower_stable nm e = true ->
+     update_name_in_formula nm env lower name scope new_name new_scope (print (m_rc_of true) nm e)
+     = if text_eqb new_name name then print (m_rc_of true) nm e
+       else print (m_rc_of true) nm (rename lower name scope new_name e)).
+Proof. exact (conj rename_leaf_scope (conj update_ignores_new_scope update_name_in_formula_spec)). Qed.
+Print Assumptions C32_rename_matches_old_scope.
+
 (* ---- both file round trips: the binary format keeps workbook.defined_names (C26) ---------------- *)
 Theorem C32_roundtrip_binary :
   forall (W B : Type) (enc : W -> B) (dec : B -> option W), (forall w, dec (enc w) = Some w) ->
